@@ -20,9 +20,9 @@ import (
 
 type C10Case struct {
 	Script
-	Reuse bool `json:"reuse"` // the application reuses one message object for all its sends
+	Reuse bool    `json:"reuse"`           // the application reuses one message object for all its sends
 	Prior *Script `json:"prior,omitempty"` // an earlier logged-on session on the same stores, after which the application reset both counters (a new trading day): the numbers start again at 1 and the store must answer with the NEW messages
-	Stamp bool `json:"stamp"` // an application outgoing handler stamps every message that has a Text field (the documented use of HandleOutgoing): what goes out first, and is stored, carries the stamp
+	Stamp bool    `json:"stamp"`           // an application outgoing handler stamps every message that has a Text field (the documented use of HandleOutgoing): what goes out first, and is stored, carries the stamp
 }
 
 func genC10(t *rapid.T) *C10Case {
@@ -258,10 +258,12 @@ func TestC10(t *testing.T) {
 // ---- gap detection on Logon ----
 
 type C10GapCase struct {
-	Cfg      rig.Cfg `json:"cfg"`
-	Expected int     `json:"stored_inbound"` // the counter store's last inbound number c
-	Received int     `json:"received"`       // MsgSeqNum r of the peer's Logon
-	MaxHB    int     `json:"max_hb"`
+	Cfg       rig.Cfg `json:"cfg"`
+	Expected  int     `json:"stored_inbound"` // the counter store's last inbound number c
+	Received  int     `json:"received"`       // MsgSeqNum r of the peer's Logon
+	MaxHB     int     `json:"max_hb"`
+	ResetFlag bool    `json:"reset_flag,omitempty"` // the Logon carries ResetSeqNumFlag=Y
+	AppReset  bool    `json:"app_reset,omitempty"`  // the stored number is what ResetSeqNum leaves behind (the application reset the incoming side): Expected is 0 by definition
 }
 
 func genC10Gap(t *rapid.T) *C10GapCase {
@@ -277,12 +279,22 @@ func genC10Gap(t *rapid.T) *C10GapCase {
 		c.Received = 0
 	}
 	c.MaxHB = cfg.HBMax
+	c.ResetFlag = rapid.IntRange(0, 4).Draw(t, "resetFlag") == 0
+	if rapid.IntRange(0, 4).Draw(t, "appReset") == 0 {
+		c.AppReset = true
+		c.Expected = 0
+		c.Received = rapid.IntRange(0, 6).Draw(t, "rAfterReset")
+	}
 	return c
 }
 
 func checkC10Gap(c *C10GapCase, rec *evid.Rec) (vs []pbt.Violation) {
 	inner := memory.NewStorage()
 	_ = inner.SetSeqNum(fix.StorageID{Side: fix.Incoming}, c.Expected)
+	if c.AppReset {
+		_ = inner.SetSeqNum(fix.StorageID{Side: fix.Incoming}, 57) // whatever was there before ...
+		_ = inner.ResetSeqNum(fix.StorageID{Side: fix.Incoming})   // ... the application resets it: nothing received yet
+	}
 	g := &hgen{cfg: c.Cfg, inSeq: c.Received}
 	hb := c.Cfg.HBMin
 	if c.Cfg.Role == "initiator" {
@@ -291,6 +303,9 @@ func checkC10Gap(c *C10GapCase, rec *evid.Rec) (vs []pbt.Violation) {
 	logon := &rig.InMsg{Type: rig.TLogon, Seq: itoa(c.Received), Fields: []rig.Tok{
 		rig.F(rig.TagEncryptMethod, c.Cfg.Methods[0]), rig.F(rig.TagHeartBtInt, itoa(hb)),
 		rig.F(rig.TagUsername, "alice"), rig.F(rig.TagPassword, "secret")}}
+	if c.ResetFlag {
+		logon.Fields = append(logon.Fields, rig.F(rig.TagResetSeqNumFlag, "Y")) // the library leaves acting on the flag to the application: the gap rule is unchanged
+	}
 	_ = g
 	steps := []rig.Step{{Op: "in", In: logon}}
 	tr := rig.RunDirect(outerT, c.Cfg, steps, &rig.Hooks{Inner: inner}, c.MaxHB)
@@ -320,6 +335,12 @@ func checkC10Gap(c *C10GapCase, rec *evid.Rec) (vs []pbt.Violation) {
 		rec.Hist("gap")
 	} else {
 		rec.Hist("no-gap")
+	}
+	if c.ResetFlag {
+		rec.Hist("logon-with-resetseqnumflag")
+	}
+	if c.AppReset {
+		rec.Hist("incoming-counter-reset-by-application")
 	}
 	if rec.WantSample() && gap {
 		rec.Sample(map[string]any{"role": c.Cfg.Role, "stored_last_inbound": c.Expected, "logon_seq": c.Received})
